@@ -88,7 +88,7 @@ def plans(seed, q):
     P += [("render2", dict(ops=["Placeholder", "Render", "AddImage"], depth=3 if q else 4, kinds=("default",), where=("body", "cell"),
                            via=VIA1 | ({"renderer"} if seed % 2 else {"legacy"}), keep=("first", "second")))]
     # pictures whose file name does not carry the canonical extension of their format, through every picture entry point
-    P += [("pics", dict(ops=["AddImage", "Reopen", "ToBytes"], depth=2 if q else 3, kinds=("default",), where=("body", "cell", "resource"),
+    P += [("pics", dict(ops=["AddImage", "Reopen", "ToBytes"], depth=2, kinds=("default",), where=("body", "cell", "resource"),
                         via=VIA1 | {"file"}, pics=("png", "jpg", "gifcap")))]
     # notes added and taken away again (one / all of them), in every order, with Reopen in between
     P += [("notes", dict(ops=["AddFootnote", "AddEndnote", "Reopen"] + REMOVE, depth=3 if q else 5, kinds=k2[:1], where=("body",)))]
